@@ -75,7 +75,9 @@ static void prog(int t) {
 }
 
 static void mutex_by_hand(fiber_mutex_t* m, mpsc_fifo_node_t* stub) {
-  m->counter = 1;
+  /* real init; only the queue's stub node is replaced by one from our array */
+  fiber_mutex_init(m);
+  free(m->waiters.head);
   m->waiters.head = stub; m->waiters.tail = stub;
 }
 
@@ -88,8 +90,11 @@ static void h_run_case(hcase_t* c) {
   t1_setup(n);
   /* objects by hand, mirroring fiber_mutex_init / fiber_cond_init, stubs from our array */
   mutex_by_hand(&umtx, &nodes[0]);
-  memset(&cond, 0, sizeof cond);
-  mutex_by_hand(&cond.internal_mutex, &nodes[1]);
+  memset(&cond, 0x5a, sizeof cond);
+  fiber_cond_init(&cond);                     /* the real init sets every field (also any a change adds) */
+  free(cond.internal_mutex.waiters.head);
+  cond.internal_mutex.waiters.head = &nodes[1]; cond.internal_mutex.waiters.tail = &nodes[1];
+  free(cond.waiters.head);
   cond.waiters.head = &nodes[2]; cond.waiters.tail = &nodes[2];
   for (int t = 0; t < n; t++) {
     fiber_t* f = t1_fiber_of(t);
